@@ -71,10 +71,12 @@ FAULTS_BY_CALL = {
     "open_w": ["ENOENT", "EACCES", "EROFS", "EISDIR", "ENOSPC", "EDQUOT"],
     "write": ["ENOSPC", "EIO"],
     "close_w": ["EIO", "ENOSPC"],
+    "rename": ["EXDEV", "EBUSY", "EACCES", "EROFS", "ENOSPC", "ENOENT"],
+    "fsync": ["EIO", "ENOSPC"],
 }
-CRASHABLE = ("open_r", "read", "stat", "getcwd", "open_w", "write", "close_w")
+CRASHABLE = ("open_r", "read", "stat", "getcwd", "open_w", "write", "close_w", "rename", "fsync")
 # persistent conditions apply to a class of calls: reading side / writing side
-_SEAM_CLASS = {"open_r": "r", "read": "r", "stat": "r", "getcwd": "r", "open_w": "w", "write": "w", "close_w": "w"}
+_SEAM_CLASS = {"open_r": "r", "read": "r", "stat": "r", "getcwd": "r", "open_w": "w", "write": "w", "close_w": "w", "rename": "w", "fsync": "w"}
 
 
 class Inode:
@@ -131,7 +133,8 @@ class SimFS:
         self.trace = []  # [(call_no, kind, path)] for the current op
         self.plan = {}  # call_no -> fault dict
         self.fired = []  # faults that fired in the current op
-        self.crashed = False  # set once SimCrash has been raised; fs goes inert
+        self.crashed = False  # set once SimCrash has been raised; every later seam call raises it again
+        self.crash_power = False
         self.sticky = []  # persistent conditions: [(class, path or None, errno name, ops left)]
         self.open_files = []
         self.probes = {}
@@ -406,7 +409,9 @@ class SimFS:
         For kind == 'write' the applicable fault (errno or crash) is *returned*
         and the file object carries it out (it knows the data)."""
         if self.crashed:
-            return None
+            # the process is gone: whatever handlers and `finally` blocks attempt while the crash
+            # unwinds never reaches the disk (a real kill runs none of them)
+            raise SimCrash(self.crash_power, "after-crash")
         self.call_no += 1
         n = self.call_no
         self.trace.append((n, kind, path if isinstance(path, str) else None))
@@ -447,6 +452,7 @@ class SimFS:
     def _do_crash(self, power: bool, tear: int) -> None:
         """Process kill: userspace buffers vanish. Power loss: page cache may be lost/torn."""
         self.crashed = True
+        self.crash_power = power
         for sf in self.open_files:
             sf._abandon()
         self.open_files = []
@@ -472,11 +478,6 @@ class SimFS:
                 node.dirty_from = None
             self.power_epoch += 1
         self._probe("crash_power" if power else "crash_kill")
-
-    def sync_point(self) -> None:
-        """Harness: everything written so far is durable (between operations that succeeded long ago)."""
-        for node in self.inodes.values():
-            node.dirty_from = None
 
     def _probe(self, name: str, n: int = 1) -> None:
         self.probes[name] = self.probes.get(name, 0) + n
@@ -688,7 +689,7 @@ class SimFS:
     def rename(self, src, dst, *, src_dir_fd=None, dst_dir_fd=None) -> None:
         s = self._at(src, src_dir_fd)
         d = self._at(dst, dst_dir_fd)
-        self._seam("open_w", d)
+        self._seam("rename", d)
         sp, sn = self._walk(s, want_parent=True)
         ino = sp.entries.get(sn)
         if ino is None:
@@ -809,6 +810,7 @@ class SimFS:
         if not isinstance(fd, int):
             fd = fd.fileno()
         sf = self._fd(fd)
+        self._seam("fsync", getattr(sf, "name", None))
         sf.node.dirty_from = None  # durable from here on
 
     def os_fstat(self, fd):
